@@ -177,7 +177,7 @@ def gen_case_dyn2(rng):
     dyn_dims = sorted(rng.sample(range(rank), min(rank, rng.choice([1, 1, 2]))))
     for d in dyn_dims:
         tb[d][0] = rng.choice([2, 3, 4])
-    case = {"fam": "dyn2", "tb": tb, "el": rng.choice(list(EL)), "dyn": True, "dyn_dims": dyn_dims, "sides": [gen_side2(rng, tb, dyn_dims) for _ in range(2)]}
+    case = {"fam": "dyn2", "tb": tb, "el": rng.choice(list(EL) + list(EL) + list(EL_ODD)), "dyn": True, "dyn_dims": dyn_dims, "sides": [gen_side2(rng, tb, dyn_dims) for _ in range(2)]}
     case["env"] = {"base": [0x1000 + 8 * rng.randrange(16), 0x20000 + 8 * rng.randrange(16)], "seed": rng.randrange(1 << 30), "shuffle": rng.random() < 0.8,
                    "dyn_bounds": [rng.randint(1, tb[d][0]) for d in dyn_dims]}
     return case
@@ -227,7 +227,7 @@ def gen_case(rng, tier):
         tb[d] = tb[d][:-1] or [2]
     dyn = rng.random() < 0.3
     dd = rng.choice([0, 0] + list(range(rank))) if dyn else 0
-    case = {"tb": tb, "el": rng.choice(list(EL)), "dyn": dyn, "dyn_dim": dd, "sides": [gen_side(rng, tb, dyn, dd) for _ in range(2)]}
+    case = {"tb": tb, "el": rng.choice(list(EL) + list(EL) + list(EL_ODD)), "dyn": dyn, "dyn_dim": dd, "sides": [gen_side(rng, tb, dyn, dd) for _ in range(2)]}
     if not dyn and rng.random() < 0.06:
         # a source that maps several logical elements onto one address: sliding windows (equal or small strides in
         # different dimensions)
@@ -326,7 +326,7 @@ def execute(case):
         out["rejected"] = f"{r.stage}:{r.cls}"
         return out
     env = case["env"]
-    eb = EL[case["el"]]
+    eb = {**EL, **EL_ODD}[case["el"]]
     m = ByteMachine(S, seed=env["seed"], shuffle_rows=env["shuffle"])
     descs = []
     lay = []
